@@ -550,3 +550,25 @@ def run(ctx):
     n_stub = sum(v for k, v in shims.stub_calls.items() if k.startswith(('botocore', 'requests', 'urllib3', 'aiodocker')))
     if n_stub:
         ctx.inconclusive_because(f'{n_stub} calls went into inert exception stubs on the deciding path')
+
+
+# ------------------------------------------------------------------------------------------------------------
+# Validation record (2026-09-22).  Scratch worktree of /repo HEAD, quick tier, seed 0, one edit at a time.
+# Unchanged tree: silent, both tiers, seeds 0..4.
+#
+# Breaks from DESIGN.md
+#   B1  rate-limit test moved after the transient test                    NOT caught -- behaviourally equivalent: every rate-limit value
+#                                                                         (aiohttp/httpx 429, httpx 403 rateLimitExceeded) is also transient, so only
+#                                                                         the log output differs; made observable as B3 / B12
+#   B2  `tries < 5`                                                       caught  limited/not-retried
+# Own breaks
+#   B3  B1 + 429 removed from RETRYABLE_HTTP_STATUS_CODES                 caught  rate-limit/not-retried
+#   B4  is_transient_error no longer follows __cause__                    caught  transient/chained/not-retried
+#   B5  jitter drawn from randrange(ceiling + 1)                          caught  delay/above-jitter-ceiling (jitter source at its upper extreme)
+#   B6  ECONNRESET dropped from RETRYABLE_ERRNOS                          caught  transient/not-retried (ConnectionResetError(104) itself only from the 6th failure on)
+#   B7  tries reset to 0 after a rate-limit error                         caught  limited/more-than-five-retries (needs L..R..L interleaving), delay/below-jitter-floor
+#   B8  exponent capped at 5                                              caught  delay/below-jitter-floor (from the 6th failure on)
+#   B9  limited-retry test placed after the transient test                caught  limited/not-retried
+#   B10 separate limited counter allowing six retries                     caught  limited/more-than-five-retries (7 limited-only failures)
+#   B11 maximum not applied for some jitter values at tries == 6          caught  delay/above-maximum
+#   B12 B1 + httpx 403 rateLimitExceeded no longer transient              caught  rate-limit/not-retried
